@@ -12,6 +12,7 @@ import RdVerif.Model.Diagram
 import RdVerif.Model.DriverDs
 import RdVerif.Model.ReachWF
 import RdVerif.Model.ErrorChecked
+import RdVerif.Model.Labels
 import RdVerif.Gen.Icrp107.Data
 
 namespace RdVerif.Driver
@@ -166,6 +167,14 @@ def handleMain (st : State) (req : List String) : State × String :=
       let (bE, bC, bR) := errorConstants ds
       (st, s!"ok {errorCheckedB ds bE bC lr bR} {encRat bE} {encRat bC} {encRat bR} {encRat (errorBoundQ bE bC lr bR)}")
     | _, _ => (st, "bad-request")
+  | ["label", name] =>
+    match decCodes name with
+    | some nm => (st, match nuclideLabel nm with | some l => "ok " ++ encCodes l | none => "err")
+    | none => (st, "bad-request")
+  | ["modelabel", mode] =>
+    match decCodes mode with
+    | some m => (st, "ok " ++ encCodes (modeLabel m))
+    | none => (st, "bad-request")
   | ["reach_wf", dsn] =>
     match dsByName dsn with
     | some ds => (st, s!"ok {reachWFb ds}")
